@@ -17,11 +17,13 @@ pub struct Out {
     pub nf: usize,
     /// true in the main build's oracle pass: ops may do extra (not hashed) evaluations for oracles
     pub oracles: bool,
+    /// true in the 2^32 sweeps: wrapper entry points are compared in the oracle pass, not hashed
+    pub lean: bool,
 }
 
 impl Out {
     pub fn new() -> Out {
-        Out { n: 0, tag: [0; 64], val: [0; 64], fails: [""; 8], nf: 0, oracles: false }
+        Out { n: 0, tag: [0; 64], val: [0; 64], fails: [""; 8], nf: 0, oracles: false, lean: false }
     }
     pub fn reset(&mut self) {
         self.n = 0;
@@ -69,6 +71,8 @@ pub struct Op {
     /// hash "non-finite result" and "panic" as the same class (quaternion constructors)
     pub conflate: bool,
     pub min_distinct: usize,
+    /// see `Out::lean`
+    pub lean: bool,
 }
 
 // ───────────────────────────── stream evaluation ─────────────────────────────
@@ -165,6 +169,7 @@ pub fn run_range(op: &Op, a: u64, b: u64, oracles: bool, keys: bool) -> RangeOut
     let mut st = Stats::default();
     let mut o = Out::new();
     o.oracles = oracles;
+    o.lean = op.lean;
     let stride = (op.n / 65_536).max(1);
     for idx in a..b {
         let (ok, conflated) = eval_one(op, idx, &mut o);
